@@ -4,6 +4,7 @@ import (
 	"fmt"
 	"net/netip"
 	"sort"
+	"strconv"
 	"strings"
 
 	"pgregory.net/rapid"
@@ -210,6 +211,72 @@ func genPatList(t *rapid.T) []Pat {
 	return out
 }
 
+// genWidePatList draws MANY patterns (9-260) around one base host, so that the structures behind the allow-list
+// grow wide or deep: siblings that differ in the byte next to a shared suffix (fan-out of up to 36 and beyond),
+// many ports on one host, many schemes on one host, or a chain of ever deeper subdomains.
+func genWidePatList(t *rapid.T) []Pat {
+	base := genTinyDomain(t, "widebase")
+	kind := uniform(t, "widekind", 4)
+	n := pick(t, "widen", []int{9, 12, 17, 20, 33, 36, 40, 65, 70})
+	if kind < 2 && chance(t, "widehuge", 12) {
+		n = pick(t, "widehugen", []int{130, 257, 260})
+	}
+	const letters = "abcdefghijklmnopqrstuvwxyz"
+	const alnum = letters + "0123456789"
+	scheme := pick(t, "widescheme", []string{"http", "https", "ws"})
+	withDot := chance(t, "widedot", 50)
+	out := make([]Pat, 0, n)
+	for i := 0; i < n; i++ {
+		p := Pat{Scheme: scheme, Host: base, Port: pick(t, "wideport", []string{"", "", "8080", "*"})}
+		switch kind {
+		case 0:
+			if withDot {
+				c := string(alnum[i%36])
+				if i >= 36 {
+					c = string(letters[(i/36)%26]) + c
+				}
+				p.Host = c + "." + base
+			} else {
+				c := string(letters[i%26])
+				if i >= 26 {
+					c = string(letters[(i/26)%26]) + c
+				}
+				p.Host = c + base
+			}
+		case 1:
+			p.Port = strconv.Itoa(1000 + 7*i)
+		case 2:
+			p.Scheme = "s" + strconv.Itoa(i) + pick(t, "widesfx", []string{"", "+x", "-y", ".z"})
+		default:
+			p.Host = strings.Repeat("a.", i%40) + base
+			if i >= 40 {
+				p.Host = strings.Repeat("b.", i%40+1) + base
+			}
+		}
+		p.Wild = kind != 3 && chance(t, "widewild", 25)
+		if defaultPort(p.Scheme, p.Port) {
+			p.Port = ""
+		}
+		out = append(out, p)
+	}
+	// "splitters": hosts that share only PART of what the many have in common (the bare base, the base cut inside
+	// its first label, a host that merely ends like the base); wherever they land in the list, the structure built
+	// for the many has to be split or extended at that point
+	if chance(t, "splitapex", 70) {
+		out = append(out, Pat{Scheme: scheme, Host: base, Port: pick(t, "splitport", []string{"", "8080", "*"})})
+	}
+	if len(base) > 2 && isLower(base[1]) && chance(t, "splitcut", 40) {
+		out = append(out, Pat{Scheme: scheme, Host: base[1:]})
+	}
+	if chance(t, "splitext", 40) {
+		out = append(out, Pat{Scheme: scheme, Host: "zz" + base, Wild: chance(t, "splitextwild", 30)})
+	}
+	if i := strings.LastIndexByte(base, '.'); i > 0 && chance(t, "splittld", 30) {
+		out = append(out, Pat{Scheme: scheme, Host: "other" + base[i:]})
+	}
+	return rapid.Permutation(out).Draw(t, "wideperm")
+}
+
 // genLongPatList draws patterns whose hosts are long (up to 253 bytes, plus
 // trailing dot) and share long suffixes.
 func genLongPatList(t *rapid.T) []Pat {
@@ -331,7 +398,47 @@ func hostNearMisses(p Pat) []string {
 	}
 	add(h + "m")
 	add(h + ".a")
+	// the host as the tail of a much longer one: lengths around 2^8 in front of it (the whole Origin stays below the
+	// library's overall cap, the host exceeds the 253 bytes a pattern may have)
+	if len(h) <= 56 {
+		for _, k := range []int{255, 256, 257} {
+			add(padLabels(k) + h)
+			add(padLabels(k-len(h)) + h) // total length k
+			if !strings.HasSuffix(h, ".") {
+				add(h + padLabelsAfter(k)) // ... and as the head of a much longer one
+				add(h + padLabelsAfter(k-len(h)))
+			}
+		}
+	}
 	return keys(set)
+}
+
+// padLabels returns exactly k bytes (k >= 2) of DNS labels, each followed by a dot: a prefix that turns a host into
+// one of its (very deep, very long) subdomains.
+func padLabels(k int) string {
+	var b strings.Builder
+	for k > 0 {
+		l := k - 1
+		if l > 63 {
+			l = 63
+		}
+		if rest := k - l - 1; rest == 1 {
+			l--
+		}
+		b.WriteString(strings.Repeat("p", l))
+		b.WriteByte('.')
+		k -= l + 1
+	}
+	return b.String()
+}
+
+// padLabelsAfter is padLabels for the other end: exactly k bytes of labels, each PRECEDED by a dot.
+func padLabelsAfter(k int) string {
+	b := []byte(padLabels(k))
+	for i, j := 0, len(b)-1; i < j; i, j = i+1, j-1 {
+		b[i], b[j] = b[j], b[i]
+	}
+	return string(b)
 }
 
 func keys(m map[string]struct{}) []string {
